@@ -242,6 +242,9 @@ def streams(tier, rng, P, only=None, cases=None):
               ("INT A=0\nIF(A){\n PRINT(1)\n}\n\nELSE{\n PRINT(2) n60\n}\nPRINT(3)", "(() ((decl A 0) (if A ((print 1)) ((print 2) (note 60))) (print 3)))"),
               ("FOR(INT I=0;I<3;I++){\n IF(I==1){ PRINT(I) }\n ELSE{ n60 }\n}\nPRINT(I)", "(() ((for I 0 (b 9 I 3) (inc I 1) ((if (b 5 I 1) ((print I)) ((note 60))))) (print I)))"),
               ("FUNCTION F(A){\n IF(A>1){ RETURN(1) } /* c */\n ELSE{ RETURN(2) }\n}\nPRINT(F(5)) PRINT(F(0))", "(((fn F ((A 0)) ((if (b 7 A 1) ((ret 1)) ((ret 2)))))) ((print (call F (5))) (print (call F (0)))))")]
+        # a call written as a statement without an argument list ends with its name: what stands on the next line is the next statement
+        ML += [("FUNCTION RIFF(NA=2){ PRINT(NA) n60 }\nRIFF\nn62\nPRINT(9)", "(((fn RIFF ((NA 2)) ((print NA) (note 60)))) ((call RIFF ()) (note 62) (print 9)))"),
+               ("FUNCTION BEAT(){ n61 }\nFOR(INT I=0;I<2;I++){\n BEAT\n PRINT(I)\n}\nBEAT\n\n// c\nPRINT(5)", "(((fn BEAT () ((note 61)))) ((for I 0 (b 9 I 2) (inc I 1) ((call BEAT ()) (print I))) (call BEAT ()) (print 5)))")]
         for j, (src, sx) in enumerate(ML):
             cs.append(dict(req="run " + hx(src), src=src, show=src, sexp=sx, nt=1, key="ml%d" % j, multiline=True))
             # … and the same layouts with Windows line ends
